@@ -27,6 +27,18 @@ CLAIMED = {
    text="Every row returned by the sampling methods of TLC-generated domain expressions (interior and boundary; domain-level random/grid with n and density; RandomUniform/Grid/Gaussian/LHS/adaptive/filtered samplers; parameter batches) is recorded with the parameter row it is paired with and TLC checks it against the denotation of Geometry.tla (closed set resp. topological boundary up to 2/256, filter satisfied); calls run under a watchdog, a hang or an exception on a positive-measure expression is a violation.",
    note="Trusted: TLC, vh/universe.py. Same bounded universe as C05; positive measure is decided by TLC on a 15x15 lattice (>= 5% of the window), expressions below that are not judged. Known findings: translate_bbox_per_row, bool_bd_shared_piece, bool_bd_empty_operand.",
    technique="TLC trace validation of recorded samples against the TLA+ denotation; expressions generated by TLC", ref="5 C01"),
+ "C10": dict(
+   text="Geometry.tla computes the exact measure of every expression whose measure the property fixes as (a + b*pi)/den in integer arithmetic (primitives and boundaries for every parameter row and vertex orientation, verified-disjoint unions, verified-contained cuts, independent products, translations, rotations); TLC compares the recorded volume() per row, the user-set override and the number of points returned by density sampling (exact ceil(d*vol) for non-rejection shapes, at most that for grids).",
+   note="Trusted: TLC, vh/universe.py. Tolerances: relative 2^-8 on volumes, pi in [3216/1024, 3217/1024], side lengths by integer sqrt at 1/1024. Disjointness/containment are verified by TLC on a 19x19 lattice, not taken from the flag. Rejection-based counts (triangle, Boolean combinations) are not judged.",
+   technique="exact rational+pi measure in TLA+, TLC trace validation of recorded volumes and counts", ref="5 C10"),
+ "C18": dict(
+   text="For every TLC-generated expression and batch of parameter rows the recorded bounding_box (outward rounded) must contain every lattice point of the set Geometry.tla denotes at each row, be tight (equal to the exact box) for primitives at a single row, have the documented flat shape, and the NormalizationLayer built from it must map the domain's lattice points into [-1,1]^d; all judged by TLC.",
+   note="Trusted: TLC, vh/universe.py. Enclosure judged on a 19x19(x5) lattice with 3/256 tolerance; boundaries are judged against the closed domain they bound; Point domains (measure zero, padded box) are not judged. Known finding: translate_bbox_per_row (shape pinned by an existing test).",
+   technique="TLC trace validation of recorded boxes against the TLA+ denotation (enclosure, tightness, normalization)", ref="5 C18"),
+ "C17": dict(
+   text="For every parameter-dependent expression TLC generates and every non-empty subset of its free variables, D(**values) is built on the real domain; TLC checks that its membership bits equal the denotation of the ORIGINAL expression at (values + each point's remaining parameter row), that volume and bounding box agree with the original evaluated at the joint parameters, that samples lie in the denoted set, that necessary_variables equals FreeVars (before) and FreeVars minus the bound names (after), and that the original is unchanged. Geometry.tla additionally defines PE(e,b) and FreeVars and TLC checks In(PE(e,b)) = In(e, +b) on the model.",
+   note="Trusted: TLC, vh/universe.py. Same bounded universe as C05; bindings t,k in {0,1,2}. Volume/box agreement is between two recordings of the real code. Dependent products use documented random estimates for volume/box and are compared on membership, samples and necessary_variables only. Known finding: single_bd_point_side (pinned by an existing test).",
+   technique="TLC trace validation against the TLA+ denotation + TLC model check of the substitution law PE", ref="5 C17"),
 }
 PENDING_REASON = "check not built yet in this round (design in DESIGN.md section 5); not claimed"
 
